@@ -27,7 +27,7 @@ ASSUMPTIONS = ['repozo is driven through do_backup/do_recover/do_verify with an 
                'hook) or, in half of the cases, from a clock bound as repozo.time that advances one second with every reading',
                'a flipped byte in a gzip file that leaves the decompressed stream identical is not a content change']
 BUDGET = {'quick': {'examples': 4000, 'workers': 8},
-          'thorough': {'examples': 6000, 'workers': 16}}
+          'thorough': {'examples': 30000, 'workers': 16}}
 
 
 def strategy(tier):
